@@ -150,21 +150,21 @@ class BlockSeries:
                     dimension_names=self.dimension_names,
                 )
 
-            # Index the orders with slices rather than integers: integers would count
-            # as advanced indices and numpy would then move the dimensions of a list
-            # index in `item` to the front if a slice separates them from the orders.
-            packed = BlockSeries(
-                eval=lambda *index: self[
-                    item + tuple(slice(order, order + 1) for order in index)
-                ].filled(zero)[(..., *(0,) * self.n_infinite)],
-                shape=(),
-                n_infinite=self.n_infinite,
-            )
+            # Resolve the index expression now, as numpy does: every element of the
+            # view is mapped to the finite index of the element it refers to. The
+            # view then only evaluates the elements that are requested from it.
+            finite_index = np.empty(self.shape, dtype=object)
+            for index in np.ndindex(self.shape):
+                finite_index[index] = index
+            finite_index = finite_index[item]
+            if isinstance(finite_index, tuple):  # a single element, e.g. numpy integers
+                return self[finite_index]
             return BlockSeries(
-                eval=lambda *index: packed[index[-self.n_infinite :]][
-                    index[: -self.n_infinite]
+                eval=lambda *index: self[
+                    finite_index[index[: -self.n_infinite]]
+                    + index[-self.n_infinite :]
                 ],
-                shape=np.empty(self.shape)[item].shape,
+                shape=finite_index.shape,
                 n_infinite=self.n_infinite,
                 dimension_names=self.dimension_names,
             )
